@@ -29,25 +29,27 @@ VARIABLES l,        \* current log line
           snapSeen, \* a level-9 file has been listed in this trace
           maxR,     \* highest replica position listed so far in this trace
           stopped,  \* Store.Close has returned without error in this trace
+          flushed,  \* ... and the DB was initialised at that moment, so that Close flushed everything (an acknowledgement)
           hz        \* shapes of known findings (known_findings.json "signature") seen so far in this trace
-vars == <<l, t0, snapSeen, maxR, stopped, hz>>
+vars == <<l, t0, snapSeen, maxR, stopped, flushed, hz>>
 
 cur  == Log[l]
 IsStep == cur.op # "Reset"
 FilesAt(files, lvl) == {files[j] : j \in {k \in 1..Len(files) : files[k][1] = lvl}}
 HasSnap(e) == FilesAt(e.remote, 9) # {}
 
-Init == l = 1 /\ t0 = 1 /\ snapSeen = FALSE /\ maxR = 0 /\ stopped = FALSE /\ hz = {}
+Init == l = 1 /\ t0 = 1 /\ snapSeen = FALSE /\ maxR = 0 /\ stopped = FALSE /\ flushed = FALSE /\ hz = {}
 Next ==
   /\ l < Len(Log) /\ l' = l + 1
   /\ LET e == Log[l + 1] IN
-     IF e.op = "Reset" THEN t0' = l + 1 /\ snapSeen' = FALSE /\ maxR' = 0 /\ stopped' = FALSE /\ hz' = {}
+     IF e.op = "Reset" THEN t0' = l + 1 /\ snapSeen' = FALSE /\ maxR' = 0 /\ stopped' = FALSE /\ flushed' = FALSE /\ hz' = {}
      ELSE /\ t0' = t0
           \* S2: local level-0 files vanished / were truncated while litestream was running (its position may fall behind the replica)
           /\ hz' = hz \cup (IF e.op = "LocalLoss" /\ e.res = "ok" THEN {"S2"} ELSE {})
           /\ snapSeen' = (snapSeen \/ HasSnap(Log[l]))
           /\ maxR' = IF Log[l].rpos > maxR THEN Log[l].rpos ELSE maxR
           /\ stopped' = (stopped \/ (e.op = "DaemonStop" /\ e.res = "ok"))
+          /\ flushed' = (flushed \/ (e.op = "DaemonStop" /\ e.ack))
 Spec == Init /\ [][Next]_vars
 
 \* the ledger: every application-visible content the application has committed so far (the application is single-threaded
@@ -60,7 +62,7 @@ D_AckRestoreEqualsSource_ ==
   (IsStep /\ cur.ack) => /\ (cur.op = "DaemonStop" => cur.rest.ok)
                          /\ (cur.rest.ok => (cur.rest.app = cur.app /\ cur.rest.integ = "ok"))
 D_FinalRestoreEqualsSource_ ==
-  (IsStep /\ cur.op = "RestoreCheck" /\ stopped) => (cur.rest.ok /\ cur.rest.app = cur.app)
+  (IsStep /\ cur.op = "RestoreCheck" /\ flushed) => (cur.rest.ok /\ cur.rest.app = cur.app)
 
 (* C02: every TXID left on the replica restores to one committed state, in commit order *)
 Matches(a, from) == {k \in Ledger : k >= from /\ Log[k].app = a.app}
